@@ -8,6 +8,7 @@ use super::bb_oneshot::*;
 use super::inc_config::*;
 use super::inc_fs::*;
 use super::inc_incr::*;
+use super::inc_watch::*;
 use super::projset::*;
 use super::prop::*;
 use super::report::*;
@@ -90,6 +91,7 @@ pub fn main() -> i32 {
         "C13" => c13(&ctx),
         "C14" => c14(&ctx),
         "C15" => c15(&ctx),
+        "C16" => c16(&ctx),
         "C17" => c17(&ctx),
         "C19" => c19(&ctx),
         "C20" => c20(&ctx),
@@ -605,6 +607,13 @@ fn inc_replays(ctx: &Ctx, report: &mut Report) -> u64 {
                     None
                 }
             },
+            "INC-c16" => match replay_c16(r) {
+                Ok(res) => Some(res),
+                Err(e) => {
+                    report.infra_errors.push(e);
+                    None
+                }
+            },
             "INC-c15" => match replay_c15(r) {
                 Ok(res) => Some(res),
                 Err(e) => {
@@ -841,6 +850,31 @@ fn c05(ctx: &Ctx) -> i32 {
             }
             part.exhaustive = Some(true);
             report.add(part);
+        }
+    }
+    report.finish()
+}
+
+fn c16(ctx: &Ctx) -> i32 {
+    let mut report = Report::new(ctx, "exploration");
+    report.assume("ordering by barrier events (an irrelevant file created in each watched group, waited for through hook H7); inotify delivers the events of one descriptor in order");
+    report.assume("directory creation/removal events carry no expectation; after a mkdir the barrier is taken twice before a file is created inside; operations on the listed path itself are not generated; groups always have an extension filter (without one the barrier itself would be relevant)");
+    install_panic_hook();
+    inc_replays(ctx, &mut report);
+    if ctx.replay.is_none() {
+        let pr = PropRun {
+            ctx,
+            engine: "INC",
+            rule: "real TargetWatcher (inotify) over a scratch tree: 1-2 extension groups (incl. filters that match temporary-file names: rs~, swp, swx) x 1-12 operations beneath the watched directories (create, write, append, rename within / out / in, delete, mkdir + file inside, write under .zinoma) on names from 12 classes (relevant, other extension, *~, .*.swp, .*.swx, non-UTF-8, 200 characters, newline, name == extension); relevant => >= 1 invalidation before the next barrier, irrelevant => none; watcher thread panics recorded; survival probe at the end; non-trivial = an irrelevant operation followed by a relevant one, or an odd name; distinct = operation/name class set x filters",
+            total_cases: ctx.tier.pick(2000, 40_000),
+            threads: 8.min(ctx.threads),
+            max_shrink_iters: 300,
+            stream: 116,
+        };
+        let (part, failures) = run_prop(&pr, c16_case, eval_c16);
+        report.add(part);
+        for f in failures {
+            report.fail(f);
         }
     }
     report.finish()
